@@ -141,6 +141,14 @@ func c19Exec(op string) string {
 	mxj.XMLEscapeChars(true)
 	file := filepath.Join(scratch(), "f."+kind)
 	defer os.Remove(file)
+	if len(op)%5 == 0 {
+		// the path is a symbolic link to the file (writers and readers follow it alike)
+		real := file + ".real"
+		os.Remove(file)
+		if os.Symlink(real, file) == nil {
+			defer os.Remove(real)
+		}
+	}
 	if len(op)%2 == 0 {
 		// the file exists already and is longer than what will be written ("if it exists it will
 		// be truncated")
